@@ -6,7 +6,28 @@ _DEC_NOTE = ("Trusted: z3/cvc5; pyvc's encoding of the Python subset (ints mathe
              "sequences as array+length); the buffered-stream contract (read(k) = min(k, remaining) bytes, files and pipes alike), latin-1 codec, "
              "decimal str.format; nonlinear facts only through separately proved lemmas; the sidecar's transcription of the formats. "
              "Not covered: see DESIGN.md per property; units not yet under contract are listed in the evidence.")
+_TX_NOTE = ("Trusted: CPython as the executor of the real methods; the opaque-part harness (every use of a part outside "
+            "basic09_text/visit/is_str_expr/isinstance-against-base/truthiness is trapped, so a per-class result holds for every part); the "
+            "structural-induction principle over finite ASTs (paper, DESIGN 6.3); the sidecar's expected templates (BASIC09 syntax, Color BASIC rules). "
+            "Not an interpreter-level equivalence: numeric semantics of the two BASICs are out of scope (DESIGN section 5).")
 CLAIMED = {
+    "C01": dict(level_text="Per-class emission contracts (operand order, operator spelling, protected vs exposed operand positions) checked by executing "
+                "the real basic09_text/visit on opaque operands; flattened chains of any operators; hex literal denotation for all values to 0x1FFFF; and for "
+                "every ordered operator pair (binary x binary, prefix x binary, parenthesised) the emitted text re-parsed with the BASIC09 table equals the Color "
+                "BASIC tree of the source (edge obligations, composed by the edge lemma). Claimed: the syntactic core of the property only.",
+                level_note=_TX_NOTE, technique="contract-based verification: class contracts checked by symbolic execution of the real methods on opaque parts; finite case analysis over operator pairs"),
+    "C02": dict(level_text="Per-class visit/emission contracts for all control statements, FOR/NEXT pairing invariant of the bare-NEXT patcher, semantics of the "
+                "emitted IF / LOOP-EXITIF forms for every valuation of the conditions (0..3 ELSE IF arms), line and statement sequencing through convert() on "
+                "injected ASTs with opaque statements, for all option combinations.",
+                level_note=_TX_NOTE, technique="contract-based verification: class and pass contracts checked by executing the real code on opaque parts; structured-semantics evaluation of emitted templates"),
+    "C05": dict(level_text="Visit contracts (own hook, then every part, in source order) and emission contracts (hoisted calls printed first) for every class of "
+                "elements.py, step contracts of the hoisting pass (owner = latest statement, fresh temporaries, order, frame), the statement-replacement protocol; "
+                "composed by structural induction to all nestings.",
+                level_note=_TX_NOTE, technique="contract-based verification: class contracts (V/T/K) checked by symbolic execution of the real methods on opaque parts"),
+    "C06": dict(level_text="Step contracts of LineReference/Filter/ZeroFilter/Checker/Collector visitors with frames, the 32700 dispatcher for all handler "
+                "combinations (line 0 included), visit contracts of all jump-carrying classes, and the wiring of convert() (labels, refusals, dispatcher) on injected "
+                "ASTs with opaque statements and boundary line numbers.",
+                level_note=_TX_NOTE, technique="contract-based verification: pass step contracts and frames checked by executing the real code on opaque parts"),
     "C16": dict(level_text="Deductive proof, for all inputs and all loop iterations, that the real decoder functions (read from /repo on every run) "
                 "write exactly header + every pixel of a well-formed uncompressed file: per-function contracts, loop invariants over the "
                 "output array, callee contracts for getbit/pack/iotostr/strtoio/dump; obligations discharged by z3 (goal-directed instantiation, "
